@@ -70,6 +70,24 @@ def load_known(prop_id):
     return [e for e in data.get("findings", []) if e.get("property") == prop_id]
 
 
+class _DetNames(object):
+    """tempfile's random name sequence, drawn from the run's own stream instead of OS entropy"""
+
+    def __init__(self, rnd):
+        self.rnd = rnd
+
+    def __iter__(self):
+        return self
+
+    def __next__(self):
+        return "".join(self.rnd.choice("abcdefghijklmnopqrstuvwxyz0123456789_") for _ in range(8))
+
+
+def _seed_tempfile_names(streams):
+    import tempfile
+    tempfile._name_sequence = _DetNames(streams.stream("tempfile_names"))
+
+
 def run_one(prop, tier, verif_seed, job):
     """Executed in a freshly forked, pristine interpreter image."""
     res = {"tag": job.get("tag", "seed"), "i": job.get("i"), "name": job.get("name")}
@@ -80,6 +98,7 @@ def run_one(prop, tier, verif_seed, job):
             plan = prop.gen_plan(streams, tier)
         streams = Streams.from_run_seed(prop.ID, plan["run_seed"])
         ctx = Ctx(streams)
+        _seed_tempfile_names(streams)
         ctx.open_keys = set(e["key"] for e in load_known(prop.ID) if e.get("status") == "open")
         ctx.tier = tier
         res["outcome"] = "PASS"
